@@ -29,7 +29,7 @@ def _worker(task):
         except Unsupported as e:
             out.append({'unsupported': str(e), 'decisions': sorted(dec.items()), 'stack': list(I.stack[-4:])})
         except Exception as e:
-            out.append({'unsupported': 'internal error: %s' % traceback.format_exc()[-1500:], 'decisions': sorted(dec.items())})
+            out.append({'unsupported': 'internal error: %s' % traceback.format_exc()[-700:], 'decisions': sorted(dec.items())})
     stats = {'wall': time.time() - t0, 'solver': I.solver_time - s0, 'called': sorted(I.called), 'modelled': sorted(I.modelled),
              'summarized': sorted(I.summarized)}
     I.called = set(); I.modelled = set()
